@@ -56,6 +56,14 @@ func loadKnown(root string) []Finding {
 			}
 		}
 		if f.Property != "" && f.Key != "" {
+			// keep only the description for the KNOWN-FINDING line
+			var words []string
+			for _, w := range strings.Fields(f.Text) {
+				if !strings.HasPrefix(w, "property=") {
+					words = append(words, w)
+				}
+			}
+			f.Text = strings.Join(words, " ")
 			out = append(out, f)
 		}
 	}
